@@ -1153,3 +1153,60 @@ def r_mag_box(ctx, db, est, scen, box):
             if pth.status == "return" and is_float(pth.ret[0]):
                 check(name, p, pth.ret[0], True)
     return n_ob
+
+
+# ---------------------------------------------------------------------------------------------
+# R-MAG at the largest finite values: properties quantified over *all* finite observations
+# (C07, C15 small-sample path) must not overflow when every observation is as large as f64::MAX.
+
+
+def overflow_at_max(node):
+    """upper bound (log10) of every intermediate when each leaf (atom / sorted copy) has magnitude
+    <= f64::MAX and literals are themselves; returns the smallest sub-expression whose bound exceeds
+    f64::MAX although it is built from a sum/difference/product of representable values, or None"""
+    import math
+    MAXL = math.log10(1.7976931348623157e308)
+    memo = {}
+    bad = []
+
+    def ub(x):
+        k = id(x)
+        if k in memo:
+            return memo[k]
+        t = x[0]
+        r = None
+        if t == "lit":
+            v = abs(F.litval(x))
+            r = -math.inf if v == 0 else (None if v != v else (math.inf if v == math.inf else math.log10(v)))
+        elif t == "atom" or (t == "fn" and x[1] == "sorted"):
+            r = MAXL
+        elif t == "i2f":
+            r = None
+        elif t == "neg" or (t == "fn" and x[1] == "abs"):
+            r = ub(x[1] if t == "neg" else x[2])
+        elif t in ("add", "sub"):
+            a, b = ub(x[1]), ub(x[2])
+            if a is not None and b is not None:
+                hi, lo = max(a, b), min(a, b)
+                r = hi if lo == -math.inf else hi + math.log10(1 + 10 ** (lo - hi))
+        elif t == "mul":
+            a, b = ub(x[1]), ub(x[2])
+            if a is not None and b is not None:
+                r = -math.inf if -math.inf in (a, b) else a + b
+        elif t == "div":
+            a, b = ub(x[1]), ub(x[2])
+            if a is not None and x[2][0] == "lit" and b not in (None, -math.inf):
+                r = a - b
+        elif t == "fn" and x[1] in ("min", "max"):
+            a, b = ub(x[2]), ub(x[3])
+            if a is not None and b is not None:
+                r = max(a, b)
+        if r is not None and r != math.inf and r > MAXL + 1e-9 and t in ("add", "sub", "mul", "div"):
+            bad.append((F.size(x), x, r))
+        memo[k] = r
+        return r
+    ub(node)
+    if not bad:
+        return None
+    bad.sort(key=lambda t_: t_[0])
+    return bad[0][1], bad[0][2]
